@@ -465,7 +465,7 @@ pub fn run(ctx: &Ctx) -> (Spec, Report) {
     let exh = enumerate_depth2();
     let per = 40usize;
     let n_exh = (exh.len() + per - 1) / per;
-    let n = n_exh + ctx.tier.pick(800, 20_000);
+    let n = n_exh + ctx.tier.pick(2500, 30_000);
     let exh_ref = &exh;
     let rep = run_rounds(
         ctx,
